@@ -210,6 +210,8 @@ class Bench:
         k = 0
         while len(self.inputs["preprocess"]) < n_inputs:
             k += 1
+            if k > 400:
+                raise harness.MachineryError("cannot build a preprocess input with two site gaps")
             ts = preprocess_input(seed + 1000 + k)
             if ts is None:
                 continue
